@@ -268,7 +268,7 @@ def adapt_sql(sql, paramstyle):
         adapted_sql = original_sql.replace('$$', '$')
         code = compile('None', '<?>', 'eval')
     result = adapted_sql, code
-    adapted_sql_cache[(sql, paramstyle)] = result
+    adapted_sql_cache[(original_sql, paramstyle)] = result
     return result
 
 
